@@ -195,6 +195,7 @@ class Interp(OpsMixin, BuiltinsMixin):
             exc = sig.exc
             self.x_exit("raise", exc.cls.name)
             senv = self.entry_env()
+            senv.vars["exc"] = exc
             allowed = None
             for ename, cond in list(c.raises_iff.items()) + list(c.raises.items()):
                 if exc.cls.issub(ename):
